@@ -64,8 +64,9 @@ elif kind == 'c04':
     if N and N < len(cases): cases = rnd.sample(cases, N)
     for q, d in cases: emit(q, d)
 elif kind == 'c05':
-    ATOMS = ['@.a', '@.b', '@[0]', '@.*', '$.k', '@.a==1', '@.b!=2', '@.a<@.b', '1==1', '1==2', '@[?@.a]', '@..a', 'length(@.a)==0', 'count(@.*)>1', "in(@.a,$.k)"]
-    DOCS = [{"a": 1}, {"a": ""}, {"a": []}, {"a": {}}, {"a": None}, {"a": False}, {"a": 0}, {"b": 2}, {"a": 1, "b": 2}, {"a": 2, "b": 1}, [], [0], [[{"a": 1}]], [{"a": {"a": 1}}], {}, 5, "s", None]
+    ATOMS = ['@.a', '@.b', '@[0]', '@.*', '$.k', '@.a==1', '@.b!=2', '@.a<@.b', '1==1', '1==2', '@[?@.a]', '@..a', 'length(@.a)==0', 'count(@.*)>1', "in(@.a,$.k)",
+             '@[?@.a].b', '@[?@.a][0]', '@[?@.a]..b', '@[?@.b].a[?@>1]', '@.*[?@.a].b', '@[?@.a,?@.b].b', '@[1:][?@.a].b', '@..[?@.a].b', '@[?@[?@.a].b]', 'count(@[?@.a])==2', 'value(@[?@.b].a)==1']
+    DOCS = [[{"a": 1}, {"a": 2, "b": 7}], [{"b": 1, "a": [0, 2]}, {"a": 1}, {"a": {"b": 3}, "b": 0}], {"x": {"a": 1}, "y": {"a": 2, "b": [5]}}, [[{"a": 1}], [{"a": 1, "b": 2}]], {"a": 1}, {"a": ""}, {"a": []}, {"a": {}}, {"a": None}, {"a": False}, {"a": 0}, {"b": 2}, {"a": 1, "b": 2}, {"a": 2, "b": 1}, [], [0], [[{"a": 1}]], [{"a": {"a": 1}}], {}, 5, "s", None]
     def formula(d):
         r = rnd.random()
         if d >= 3 or r < 0.3: return rnd.choice(['', '', '!']) + rnd.choice(ATOMS) if rnd.random() < 0.8 else rnd.choice(ATOMS)
